@@ -26,7 +26,7 @@ def call_blocks(fn, suffix, pred=None):
 
 def arm_fns(cx, ty):
     """functions entered from a dispatcher arm for message type `ty` (callee of a call guarded by that type)"""
-    out = {}
+    out, loose = {}, {}
     for c in cx.prog.all_calls:
         sp = c.data["callee"]
         if sp in cx.prog.short and c.fn.crate == "raft":
@@ -35,10 +35,13 @@ def arm_fns(cx, ty):
             ok, _ = g.guarded(c.at, lambda lits: any(l[0] == "in" and is_f(l[1], "Message.msg_type") and l[2] == frozenset([ty]) for l in lits))
             if ok:
                 args = call_args(cx, c)
-                if any(x[0] == "param" and (c.fn.body.local_adt(x[1]) or "").endswith("eraftpb::Message") for a in args for x in walk(a)):
-                    f = cx.facts.fns[cx.prog.short[sp][0]]
+                f = cx.facts.fns[cx.prog.short[sp][0]]
+                if any(a[0] == "param" and (c.fn.body.local_adt(a[1]) or "").endswith("eraftpb::Message") for a in args):
                     out[f.key] = f
-    return out
+                elif f.impl_adt and "raft::Raft" in f.impl_adt and any(x[0] == "param" and (c.fn.body.local_adt(x[1]) or "").endswith("eraftpb::Message") for a in args for x in walk(a)):
+                    # a handler that is given parts of the message (`handle_snapshot_status(pr, m.from, m.reject)`)
+                    loose[f.key] = f
+    return out or loose
 
 
 def lit_state(st):
@@ -291,7 +294,8 @@ def window_capacity(cx):
                 continue
             # cleared: either the request equals the capacity in force, or the request is applied on the same path
             same = [w for w in capw if w.fn is s.fn and write_value(cx, w)[0] == "param" and (w.block == s.block or g.dominated_by_block(s.at, lambda b, w=w: b == w.block) or g.dominated_by_block(w.at, lambda b: b == s.block))]
-            equal = any(l[0] == "in" and l[2] == frozenset(["Equal"]) for l in cx.guard_lits(s))
+            equal = any(l[0] == "in" and l[2] == frozenset(["Equal"]) for l in cx.guard_lits(s)) or \
+                any(l[0] == "is" and l[2] is True and l[1][0] == "bin" and l[1][1] == "Eq" and any(is_f(x, CAP) for x in l[1][2:4]) and any(x[0] == "param" for x in l[1][2:4]) for l in cx.guard_lits(s))
             cx.check(bool(same) or equal, key, "incoming_cap is cleared only when the requested capacity is applied (cap := request) or equals the one in force", s)
             n += 1
         else:
